@@ -54,34 +54,34 @@ theorem val_ne2b {AP : Prop} {it : Item} {b : UInt8} {r : Bytes} (h : AP ∨ WFI
   · have := h.2 ht; rw [hv, he] at this; simp at this
 
 section
-variable (pf : Bytes → Option UInt64) (AP : Prop) (S : Item → Prop)
+variable (pf : Bytes → Option UInt64) (AP EL : Prop) (S : Item → Prop)
 
 /-- post-condition shared by the expression functions: invariant kept, no real token
     "un-consumed"; `d` = real tokens consumed at least -/
 def EPost (st : PState) (d : Nat) {α : Type} : α → PState → Prop :=
-  fun _ st' => Inv S st' ∧ mu st' + d ≤ mu st
+  fun _ st' => Inv EL S st' ∧ mu st' + d ≤ mu st
 
 /-- the specifications of all expression functions at one fuel level -/
 structure ExprSpecs (fuel : Nat) : Prop where
-  parseExpr : ∀ prec st, Inv S st → 8 * mu st + 10 ≤ fuel → PSafe AP S (parseExpr pf fuel prec) st (EPost S st 1)
-  exprLoop : ∀ prec n st, Inv S st → 8 * mu st + 17 ≤ fuel → PSafe AP S (exprLoop pf fuel prec n) st (EPost S st 0)
-  firstTerm : ∀ st, Inv S st → 8 * mu st + 9 ≤ fuel → PSafe AP S (parseExprFirstTerm pf fuel) st (EPost S st 1)
-  newValueNode : ∀ tok st, S tok → isValue tok.typ = true → Inv S st → 8 * mu st + 16 ≤ fuel → PSafe AP S (newValueNode pf fuel tok) st (EPost S st 0)
-  parseDataRef : ∀ st, Inv S st → 8 * mu st + 15 ≤ fuel → PSafe AP S (parseDataRef pf fuel) st (EPost S st 0)
-  parseListOrMap : ∀ tok st, S tok → Inv S st → 8 * mu st + 15 ≤ fuel → PSafe AP S (parseListOrMap pf fuel tok) st (EPost S st 0)
-  parseListItems : ∀ st, Inv S st → 8 * mu st + 12 ≤ fuel → PSafe AP S (parseListItems pf fuel) st (EPost S st 0)
-  parseMapItems : ∀ k m st, Inv S st → 8 * mu st + 12 ≤ fuel → PSafe AP S (parseMapItems pf fuel k m) st (EPost S st 0)
-  parseTernary : ∀ c st, Inv S st → 8 * mu st + 12 ≤ fuel → PSafe AP S (parseTernary pf fuel c) st (EPost S st 0)
-  newGlobalNode : ∀ p n nxt st, S nxt → Inv S st → st.peekCount ≤ 1 → top st = nxt → 8 * (mu st + real nxt) + 8 ≤ fuel →
-    PSafe AP S (newGlobalNode pf fuel p n nxt) st (fun _ st' => Inv S st' ∧ mu st' ≤ mu st + real nxt)
-  newFunctionNode : ∀ tok st, Inv S st → 8 * mu st + 13 ≤ fuel → PSafe AP S (newFunctionNode pf fuel tok) st (EPost S st 0)
-  parseFuncArgs : ∀ st, Inv S st → 8 * mu st + 12 ≤ fuel → PSafe AP S (parseFuncArgs pf fuel) st (EPost S st 0)
+  parseExpr : ∀ prec st, Inv EL S st → 8 * mu st + 10 ≤ fuel → PSafe AP S (parseExpr pf fuel prec) st (EPost EL S st 1)
+  exprLoop : ∀ prec n st, Inv EL S st → 8 * mu st + 17 ≤ fuel → PSafe AP S (exprLoop pf fuel prec n) st (EPost EL S st 0)
+  firstTerm : ∀ st, Inv EL S st → 8 * mu st + 9 ≤ fuel → PSafe AP S (parseExprFirstTerm pf fuel) st (EPost EL S st 1)
+  newValueNode : ∀ tok st, S tok → isValue tok.typ = true → Inv EL S st → 8 * mu st + 16 ≤ fuel → PSafe AP S (newValueNode pf fuel tok) st (EPost EL S st 0)
+  parseDataRef : ∀ st, Inv EL S st → 8 * mu st + 15 ≤ fuel → PSafe AP S (parseDataRef pf fuel) st (EPost EL S st 0)
+  parseListOrMap : ∀ tok st, S tok → Inv EL S st → 8 * mu st + 15 ≤ fuel → PSafe AP S (parseListOrMap pf fuel tok) st (EPost EL S st 0)
+  parseListItems : ∀ st, Inv EL S st → 8 * mu st + 12 ≤ fuel → PSafe AP S (parseListItems pf fuel) st (EPost EL S st 0)
+  parseMapItems : ∀ k m st, Inv EL S st → 8 * mu st + 12 ≤ fuel → PSafe AP S (parseMapItems pf fuel k m) st (EPost EL S st 0)
+  parseTernary : ∀ c st, Inv EL S st → 8 * mu st + 12 ≤ fuel → PSafe AP S (parseTernary pf fuel c) st (EPost EL S st 0)
+  newGlobalNode : ∀ p n nxt st, S nxt → Inv EL S st → st.peekCount ≤ 1 → top st = nxt → 8 * (mu st + real nxt) + 8 ≤ fuel →
+    PSafe AP S (newGlobalNode pf fuel p n nxt) st (fun _ st' => Inv EL S st' ∧ mu st' ≤ mu st + real nxt)
+  newFunctionNode : ∀ tok st, Inv EL S st → 8 * mu st + 13 ≤ fuel → PSafe AP S (newFunctionNode pf fuel tok) st (EPost EL S st 0)
+  parseFuncArgs : ∀ st, Inv EL S st → 8 * mu st + 12 ≤ fuel → PSafe AP S (parseFuncArgs pf fuel) st (EPost EL S st 0)
 
 variable (hz : S Item.zero) (hwf : ∀ it, S it → AP ∨ WFItem it)
 include hz hwf
 
-theorem parseExpr_ok {fuel : Nat} (ih : ExprSpecs pf AP S fuel) (prec : Nat) (st : PState) (hi : Inv S st)
-    (hf : 8 * mu st + 10 ≤ fuel + 1) : PSafe AP S (Parser.parseExpr pf (fuel + 1) prec) st (EPost S st 1) := by
+theorem parseExpr_ok {fuel : Nat} (ih : ExprSpecs pf AP EL S fuel) (prec : Nat) (st : PState) (hi : Inv EL S st)
+    (hf : 8 * mu st + 10 ≤ fuel + 1) : PSafe AP S (Parser.parseExpr pf (fuel + 1) prec) st (EPost EL S st 1) := by
   unfold Parser.parseExpr
   apply PSafe.bind
   apply (ih.firstTerm st hi (by omega)).mono
@@ -90,8 +90,8 @@ theorem parseExpr_ok {fuel : Nat} (ih : ExprSpecs pf AP S fuel) (prec : Nat) (st
   intro e st2 ⟨hi2, hm2⟩
   exact ⟨hi2, by omega⟩
 
-theorem exprLoop_ok {fuel : Nat} (ih : ExprSpecs pf AP S fuel) (prec : Nat) (n : Expr) (st : PState) (hi : Inv S st)
-    (hf : 8 * mu st + 17 ≤ fuel + 1) : PSafe AP S (Parser.exprLoop pf (fuel + 1) prec n) st (EPost S st 0) := by
+theorem exprLoop_ok {fuel : Nat} (ih : ExprSpecs pf AP EL S fuel) (prec : Nat) (n : Expr) (st : PState) (hi : Inv EL S st)
+    (hf : 8 * mu st + 17 ≤ fuel + 1) : PSafe AP S (Parser.exprLoop pf (fuel + 1) prec n) st (EPost EL S st 0) := by
   unfold Parser.exprLoop
   apply PSafe.bind
   apply next_safe hz hi
@@ -123,8 +123,8 @@ theorem exprLoop_ok {fuel : Nat} (ih : ExprSpecs pf AP S fuel) (prec : Nat) (n :
       exact absurd hnone (binOpOf_isSome hb')
 
 
-theorem firstTerm_ok {fuel : Nat} (ih : ExprSpecs pf AP S fuel) (st : PState) (hi : Inv S st)
-    (hf : 8 * mu st + 9 ≤ fuel + 1) : PSafe AP S (Parser.parseExprFirstTerm pf (fuel + 1)) st (EPost S st 1) := by
+theorem firstTerm_ok {fuel : Nat} (ih : ExprSpecs pf AP EL S fuel) (st : PState) (hi : Inv EL S st)
+    (hf : 8 * mu st + 9 ≤ fuel + 1) : PSafe AP S (Parser.parseExprFirstTerm pf (fuel + 1)) st (EPost EL S st 1) := by
   unfold Parser.parseExprFirstTerm
   apply PSafe.bind
   apply next_safe hz hi
@@ -160,9 +160,9 @@ theorem firstTerm_ok {fuel : Nat} (ih : ExprSpecs pf AP S fuel) (st : PState) (h
     exact ⟨hi2, by omega⟩
   · exact unexpected_safe hi1 hs1
 
-theorem newValueNode_ok {fuel : Nat} (ih : ExprSpecs pf AP S fuel) (tok : Item) (st : PState) (hst : S tok)
-    (hv : isValue tok.typ = true) (hi : Inv S st) (hf : 8 * mu st + 16 ≤ fuel + 1) :
-    PSafe AP S (Parser.newValueNode pf (fuel + 1) tok) st (EPost S st 0) := by
+theorem newValueNode_ok {fuel : Nat} (ih : ExprSpecs pf AP EL S fuel) (tok : Item) (st : PState) (hst : S tok)
+    (hv : isValue tok.typ = true) (hi : Inv EL S st) (hf : 8 * mu st + 16 ≤ fuel + 1) :
+    PSafe AP S (Parser.newValueNode pf (fuel + 1) tok) st (EPost EL S st 0) := by
   unfold Parser.newValueNode
   split
   · exact PSafe.pure ⟨hi, by omega⟩
@@ -206,8 +206,8 @@ theorem newValueNode_ok {fuel : Nat} (ih : ExprSpecs pf AP S fuel) (tok : Item) 
     revert hv h1 h2 h3 h4 h5 h6 h7 h8
     cases tok.typ <;> simp [isValue]
 
-theorem parseDataRef_ok {fuel : Nat} (ih : ExprSpecs pf AP S fuel) (st : PState) (hi : Inv S st)
-    (hf : 8 * mu st + 15 ≤ fuel + 1) : PSafe AP S (Parser.parseDataRef pf (fuel + 1)) st (EPost S st 0) := by
+theorem parseDataRef_ok {fuel : Nat} (ih : ExprSpecs pf AP EL S fuel) (st : PState) (hi : Inv EL S st)
+    (hf : 8 * mu st + 15 ≤ fuel + 1) : PSafe AP S (Parser.parseDataRef pf (fuel + 1)) st (EPost EL S st 0) := by
   unfold Parser.parseDataRef
   apply PSafe.bind
   apply next_safe hz hi
@@ -278,9 +278,9 @@ theorem parseDataRef_ok {fuel : Nat} (ih : ExprSpecs pf AP S fuel) (st : PState)
     exact PSafe.pure ⟨hi2, by rw [ht1] at hm2; omega⟩
 
 
-theorem parseListOrMap_ok {fuel : Nat} (ih : ExprSpecs pf AP S fuel) (token : Item) (st : PState) (hst : S token)
-    (hi : Inv S st) (hf : 8 * mu st + 15 ≤ fuel + 1) :
-    PSafe AP S (Parser.parseListOrMap pf (fuel + 1) token) st (EPost S st 0) := by
+theorem parseListOrMap_ok {fuel : Nat} (ih : ExprSpecs pf AP EL S fuel) (token : Item) (st : PState) (hst : S token)
+    (hi : Inv EL S st) (hf : 8 * mu st + 15 ≤ fuel + 1) :
+    PSafe AP S (Parser.parseListOrMap pf (fuel + 1) token) st (EPost EL S st 0) := by
   unfold Parser.parseListOrMap
   apply PSafe.bind
   apply next_safe hz hi
@@ -324,9 +324,9 @@ theorem parseListOrMap_ok {fuel : Nat} (ih : ExprSpecs pf AP S fuel) (token : It
     · exact PSafe.pure ⟨hi4, by omega⟩
     · exact unexpected_safe hi4 hs4
 
-theorem parseListItems_ok {fuel : Nat} (ih : ExprSpecs pf AP S fuel) (st : PState)
-    (hi : Inv S st) (hf : 8 * mu st + 12 ≤ fuel + 1) :
-    PSafe AP S (Parser.parseListItems pf (fuel + 1)) st (EPost S st 0) := by
+theorem parseListItems_ok {fuel : Nat} (ih : ExprSpecs pf AP EL S fuel) (st : PState)
+    (hi : Inv EL S st) (hf : 8 * mu st + 12 ≤ fuel + 1) :
+    PSafe AP S (Parser.parseListItems pf (fuel + 1)) st (EPost EL S st 0) := by
   unfold Parser.parseListItems
   apply PSafe.bind
   apply peek_safe hz hi
@@ -352,9 +352,9 @@ theorem parseListItems_ok {fuel : Nat} (ih : ExprSpecs pf AP S fuel) (st : PStat
       intro r st3 ⟨hi3, hm3⟩
       exact PSafe.pure ⟨hi3, by omega⟩
 
-theorem parseMapItems_ok {fuel : Nat} (ih : ExprSpecs pf AP S fuel) (key : Bytes) (items : MapItems) (st : PState)
-    (hi : Inv S st) (hf : 8 * mu st + 12 ≤ fuel + 1) :
-    PSafe AP S (Parser.parseMapItems pf (fuel + 1) key items) st (EPost S st 0) := by
+theorem parseMapItems_ok {fuel : Nat} (ih : ExprSpecs pf AP EL S fuel) (key : Bytes) (items : MapItems) (st : PState)
+    (hi : Inv EL S st) (hf : 8 * mu st + 12 ≤ fuel + 1) :
+    PSafe AP S (Parser.parseMapItems pf (fuel + 1) key items) st (EPost EL S st 0) := by
   unfold Parser.parseMapItems
   apply PSafe.bind
   apply (ih.parseExpr _ st hi (by omega)).mono
@@ -388,9 +388,9 @@ theorem parseMapItems_ok {fuel : Nat} (ih : ExprSpecs pf AP S fuel) (key : Bytes
         exact ⟨hi5, by omega⟩
       · exact errorf_safe hi3
 
-theorem parseTernary_ok {fuel : Nat} (ih : ExprSpecs pf AP S fuel) (cond : Expr) (st : PState)
-    (hi : Inv S st) (hf : 8 * mu st + 12 ≤ fuel + 1) :
-    PSafe AP S (Parser.parseTernary pf (fuel + 1) cond) st (EPost S st 0) := by
+theorem parseTernary_ok {fuel : Nat} (ih : ExprSpecs pf AP EL S fuel) (cond : Expr) (st : PState)
+    (hi : Inv EL S st) (hf : 8 * mu st + 12 ≤ fuel + 1) :
+    PSafe AP S (Parser.parseTernary pf (fuel + 1) cond) st (EPost EL S st 0) := by
   unfold Parser.parseTernary
   apply PSafe.bind
   apply (ih.parseExpr _ st hi (by omega)).mono
@@ -403,11 +403,11 @@ theorem parseTernary_ok {fuel : Nat} (ih : ExprSpecs pf AP S fuel) (cond : Expr)
   intro n2 st3 ⟨hi3, hm3⟩
   exact PSafe.pure ⟨hi3, by omega⟩
 
-theorem newGlobalNode_ok {fuel : Nat} (ih : ExprSpecs pf AP S fuel) (pos : Nat) (name : Bytes) (nxt : Item)
-    (st : PState) (hs : S nxt) (hi : Inv S st) (hpc : st.peekCount ≤ 1) (ht : top st = nxt)
+theorem newGlobalNode_ok {fuel : Nat} (ih : ExprSpecs pf AP EL S fuel) (pos : Nat) (name : Bytes) (nxt : Item)
+    (st : PState) (hs : S nxt) (hi : Inv EL S st) (hpc : st.peekCount ≤ 1) (ht : top st = nxt)
     (hf : 8 * (mu st + real nxt) + 8 ≤ fuel + 1) :
     PSafe AP S (Parser.newGlobalNode pf (fuel + 1) pos name nxt) st
-      (fun _ st' => Inv S st' ∧ mu st' ≤ mu st + real nxt) := by
+      (fun _ st' => Inv EL S st' ∧ mu st' ≤ mu st + real nxt) := by
   unfold Parser.newGlobalNode
   split
   · rename_i hd
@@ -423,9 +423,9 @@ theorem newGlobalNode_ok {fuel : Nat} (ih : ExprSpecs pf AP S fuel) (pos : Nat) 
     intro st2 hi2 hm2 _
     exact PSafe.pure ⟨hi2, by rw [ht] at hm2; omega⟩
 
-theorem newFunctionNode_ok {fuel : Nat} (ih : ExprSpecs pf AP S fuel) (tok : Item) (st : PState)
-    (hi : Inv S st) (hf : 8 * mu st + 13 ≤ fuel + 1) :
-    PSafe AP S (Parser.newFunctionNode pf (fuel + 1) tok) st (EPost S st 0) := by
+theorem newFunctionNode_ok {fuel : Nat} (ih : ExprSpecs pf AP EL S fuel) (tok : Item) (st : PState)
+    (hi : Inv EL S st) (hf : 8 * mu st + 13 ≤ fuel + 1) :
+    PSafe AP S (Parser.newFunctionNode pf (fuel + 1) tok) st (EPost EL S st 0) := by
   unfold Parser.newFunctionNode
   apply PSafe.bind
   apply peek_safe hz hi
@@ -440,9 +440,9 @@ theorem newFunctionNode_ok {fuel : Nat} (ih : ExprSpecs pf AP S fuel) (tok : Ite
     intro args st2 ⟨hi2, hm2⟩
     exact PSafe.pure ⟨hi2, by omega⟩
 
-theorem parseFuncArgs_ok {fuel : Nat} (ih : ExprSpecs pf AP S fuel) (st : PState)
-    (hi : Inv S st) (hf : 8 * mu st + 12 ≤ fuel + 1) :
-    PSafe AP S (Parser.parseFuncArgs pf (fuel + 1)) st (EPost S st 0) := by
+theorem parseFuncArgs_ok {fuel : Nat} (ih : ExprSpecs pf AP EL S fuel) (st : PState)
+    (hi : Inv EL S st) (hf : 8 * mu st + 12 ≤ fuel + 1) :
+    PSafe AP S (Parser.parseFuncArgs pf (fuel + 1)) st (EPost EL S st 0) := by
   unfold Parser.parseFuncArgs
   apply PSafe.bind
   apply (ih.parseExpr _ st hi (by omega)).mono
@@ -461,7 +461,7 @@ theorem parseFuncArgs_ok {fuel : Nat} (ih : ExprSpecs pf AP S fuel) (st : PState
   · exact unexpected_safe hi2 hs2
 
 /-- every expression function meets its specification at every fuel level -/
-theorem exprSpecs_all : ∀ fuel, ExprSpecs pf AP S fuel := by
+theorem exprSpecs_all : ∀ fuel, ExprSpecs pf AP EL S fuel := by
   intro fuel
   induction fuel with
   | zero =>
@@ -480,18 +480,18 @@ theorem exprSpecs_all : ∀ fuel, ExprSpecs pf AP S fuel := by
       parseFuncArgs := fun _ _ h => by omega }
   | succ f ih =>
     exact {
-      parseExpr := parseExpr_ok pf AP S hz hwf ih
-      exprLoop := exprLoop_ok pf AP S hz hwf ih
-      firstTerm := firstTerm_ok pf AP S hz hwf ih
-      newValueNode := newValueNode_ok pf AP S hz hwf ih
-      parseDataRef := parseDataRef_ok pf AP S hz hwf ih
-      parseListOrMap := parseListOrMap_ok pf AP S hz hwf ih
-      parseListItems := parseListItems_ok pf AP S hz hwf ih
-      parseMapItems := parseMapItems_ok pf AP S hz hwf ih
-      parseTernary := parseTernary_ok pf AP S hz hwf ih
-      newGlobalNode := newGlobalNode_ok pf AP S hz hwf ih
-      newFunctionNode := newFunctionNode_ok pf AP S hz hwf ih
-      parseFuncArgs := parseFuncArgs_ok pf AP S hz hwf ih }
+      parseExpr := parseExpr_ok pf AP EL S hz hwf ih
+      exprLoop := exprLoop_ok pf AP EL S hz hwf ih
+      firstTerm := firstTerm_ok pf AP EL S hz hwf ih
+      newValueNode := newValueNode_ok pf AP EL S hz hwf ih
+      parseDataRef := parseDataRef_ok pf AP EL S hz hwf ih
+      parseListOrMap := parseListOrMap_ok pf AP EL S hz hwf ih
+      parseListItems := parseListItems_ok pf AP EL S hz hwf ih
+      parseMapItems := parseMapItems_ok pf AP EL S hz hwf ih
+      parseTernary := parseTernary_ok pf AP EL S hz hwf ih
+      newGlobalNode := newGlobalNode_ok pf AP EL S hz hwf ih
+      newFunctionNode := newFunctionNode_ok pf AP EL S hz hwf ih
+      parseFuncArgs := parseFuncArgs_ok pf AP EL S hz hwf ih }
 
 end
 end SoyVerif.Lemmas.ParserSafe
